@@ -5,6 +5,7 @@ package interp
 
 import (
 	"fmt"
+	"strings"
 	"go/token"
 	"go/types"
 	"log"
@@ -61,6 +62,8 @@ type interpreter struct {
 	instrs             int64
 	depth              int
 	mutexHeld          map[*value]int
+	opaque             map[*value][]value
+	panicTrace         string
 }
 
 type deferred struct {
@@ -82,6 +85,7 @@ type frame struct {
 	panicking        bool
 	panic            interface{}
 	phitemps         []value // temporaries for parallel phi assignment
+	curInstr         ssa.Instruction
 }
 
 func (fr *frame) ctx() *Ctx { return fr.i.c }
@@ -554,7 +558,13 @@ func runFrame(fr *frame) {
 			fmt.Fprintf(os.Stderr, "Panicking: %T %v.\n", fr.panic, fr.panic)
 		}
 		if ea, isAbort := fr.panic.(engineAbort); isAbort {
+			if fr.i.panicTrace == "" && ea.kind == "unsupported" {
+				fr.i.panicTrace = targetStack(fr)
+			}
 			panic(ea)
+		}
+		if fr.i.panicTrace == "" {
+			fr.i.panicTrace = targetStack(fr)
 		}
 		if re, isRT := fr.panic.(runtime.Error); isRT {
 			if _, isTA := re.(*runtime.TypeAssertionError); isTA {
@@ -583,6 +593,9 @@ func runFrame(fr *frame) {
 				}
 			}
 			fr.i.instrs++
+			if instr.Pos().IsValid() {
+				fr.curInstr = instr
+			}
 			if fr.i.instrs > fr.i.c.InstrCap {
 				panic(engineAbort{"cap", fmt.Sprintf("instruction cap %d exceeded", fr.i.c.InstrCap)})
 			}
@@ -641,6 +654,7 @@ func doRecover(caller *frame) value {
 		caller.caller.panicking = false
 		p := caller.caller.panic
 		caller.caller.panic = nil
+		caller.i.panicTrace = ""
 
 		// TODO(adonovan): support runtime.Goexit.
 		switch p := p.(type) {
@@ -657,3 +671,21 @@ func doRecover(caller *frame) value {
 	return iface{}
 }
 
+
+// targetStack renders the interpreted call stack at fr (innermost first).
+func targetStack(fr *frame) string {
+	var sb strings.Builder
+	n := 0
+	for f := fr; f != nil && n < 14; f = f.caller {
+		pos := ""
+		if f.curInstr != nil {
+			pos = f.i.prog.Fset.Position(f.curInstr.Pos()).String()
+			if i := strings.LastIndex(pos, "/"); i >= 0 {
+				pos = pos[i+1:]
+			}
+		}
+		fmt.Fprintf(&sb, "\n    at %s (%s)", f.fn.String(), pos)
+		n++
+	}
+	return sb.String()
+}
